@@ -35,6 +35,7 @@ type frame struct {
 	parent  *frame
 	innerEntry map[[2]*loop][]Term
 	viaFuncParam bool
+	ifaceMods    *ModSet
 }
 
 type retInfo struct {
@@ -900,6 +901,26 @@ func (fr *frame) env(cur, old *State, l *loop) *Env {
 	}
 	for k, v := range fr.params {
 		ev.vars[k] = v
+	}
+	// positional aliases (used by interface contracts): recv, arg0, arg1, ...
+	if fr.fn != nil {
+		off := 0
+		if fr.fn.Signature.Recv() != nil && len(fr.fn.Params) > 0 {
+			if v, ok := fr.params[fr.fn.Params[0].Name()]; ok {
+				if _, clash := ev.vars["recv"]; !clash {
+					ev.vars["recv"] = v
+				}
+			}
+			off = 1
+		}
+		for i := off; i < len(fr.fn.Params); i++ {
+			if v, ok := fr.params[fr.fn.Params[i].Name()]; ok {
+				an := fmt.Sprintf("arg%d", i-off)
+				if _, clash := ev.vars[an]; !clash {
+					ev.vars[an] = v
+				}
+			}
+		}
 	}
 	ev.local = func(name string) (Value, bool) {
 		return fr.localValue(name, cur, l)
